@@ -367,7 +367,11 @@ func (s *tdposSchedule) calHisValidators(height int64) ([]string, error) {
 		return nil, err
 	}
 	s.log.Debug("tdpos::CalculateProposers::target height.", "height", height, "targetHeight", targetHeight, "term", term)
-	return s.calTopKNominator(targetHeight)
+	// targetHeight is the first block of the term. The producers of the term fixed their validators when the term
+	// began, i.e. on the tip below that block (CompeteMaster: UpdateProposers(tipHeight)), and the first block itself
+	// was verified against the same tip (CalOldProposers: calTopKNominator(tipHeight)); the later blocks of the term
+	// must be judged by the same election snapshot, not by the one a block later.
+	return s.calTopKNominator(targetHeight - 1)
 }
 
 // binarySearch 二分法快速查找
